@@ -396,14 +396,16 @@ fn inject(rng: &mut Rng, p: &Program, rule: usize) -> Option<Injected> {
         10 => {
             let mut pre = Vec::new();
             let e = nonlocal_expr(rng, cap, &mut pre, &mut sub);
-            let c: Vec<String> = match rng.below(9) {
+            // `for` gets extra weight: its source can break TWO rules at once (non-local AND not a list: a scoped variable),
+            // and which of the two is reported is part of the verdict
+            let c: Vec<String> = match rng.below(12) {
                 0 => { sub.push_str("->scan"); vec![format!("scan {} {{", e), "  \"x\" {".into(), "    print 1".into(), "  }".into(), "}".into()] }
                 1 => { sub.push_str("->if"); vec![format!("if {} {{", e), "  print 1".into(), "}".into()] }
                 2 => { sub.push_str("->elif"); vec!["if #false {".into(), "  print 0".into(), format!("}} elif {} {{", e), "  print 1".into(), "}".into()] }
                 3 => { sub.push_str("->if-2nd-cond"); vec![format!("if #true, {} {{", e), "  print 1".into(), "}".into()] }
                 4 => { sub.push_str("->if-some"); vec![format!("if some {} {{", e), "  print 1".into(), "}".into()] }
                 5 => { sub.push_str("->if-none"); vec![format!("if none {} {{", e), "  print 1".into(), "}".into()] }
-                6 => { sub.push_str("->for"); vec![format!("for zq in {} {{", e), "  print zq".into(), "}".into()] }
+                6 | 9 | 10 | 11 => { sub.push_str("->for"); vec![format!("for zq in {} {{", e), "  print zq".into(), "}".into()] }
                 7 => { sub.push_str("->list-comp"); ctx.push("comp".into()); vec![format!("print [ zc for zc in {} ]", e)] }
                 _ => { sub.push_str("->set-comp"); ctx.push("comp".into()); vec![format!("let zq = {{ zc for zc in {} }}", e)] }
             };
